@@ -157,6 +157,16 @@ theorem stepInstr_safe (s : St) (i : Instr) (h : VOK s.vm) : StepSafe (stepInstr
     | cont c => intro _; exact hm.withDp _
     | died c => intro _; exact hm.1
     | fault w => intro hn; exact hn
+  · -- ATTR_ADD
+    obtain ⟨x, v', hv, hm⟩ := pop_ok s.vm h
+    rw [hv]
+    simp only []
+    have hn := attrSet_noStack s.ctx (ps.getD 0 0) 0 (i16 (i32 (x + curAttr s.ctx (ps.getD 0 0))))
+    revert hn
+    cases opAttrSet s.ctx (ps.getD 0 0) 0 (i16 (i32 (x + curAttr s.ctx (ps.getD 0 0)))) with
+    | cont c => intro _; exact hm.withDp _
+    | died c => intro _; exact hm.1
+    | fault w => intro hn; exact hn
   · -- ATTR_SET_SLOT
     obtain ⟨x, v', hv, hm⟩ := pop_ok s.vm h
     rw [hv]
